@@ -217,6 +217,10 @@ impl ProblemCase {
     }
     /// build the problem of this case's flavour at parameters `alpha` (None = the case's own)
     pub fn build_at<T: Sc>(&self, alpha: Option<&[T]>, ctl: Option<Arc<Ctl>>) -> Result<Box<dyn Prob<T>>, String> {
+        self.build_with(alpha, ctl, None)
+    }
+    /// like build_at, with a control block for the closures of builder-made models
+    pub fn build_with<T: Sc>(&self, alpha: Option<&[T]>, ctl: Option<Arc<Ctl>>, bfault: Option<Arc<crate::models::BFault>>) -> Result<Box<dyn Prob<T>>, String> {
         let x: Vec<T> = self.xs();
         let a: Vec<T> = match alpha {
             Some(a) => a.to_vec(),
@@ -230,7 +234,7 @@ impl ProblemCase {
             };
             build_problem(model, &bd)
         } else {
-            let model = builder_model(&self.spec, &x, &a, None, self.reverse_derivs).map_err(|e| format!("model builder: {e:?}"))?;
+            let model = builder_model(&self.spec, &x, &a, bfault, self.reverse_derivs).map_err(|e| format!("model builder: {e:?}"))?;
             build_problem(model, &bd)
         }
     }
@@ -441,6 +445,58 @@ impl FamCase {
         }
         let mut rng = Rng64::new(self.noise_seed);
         (0..self.s()).map(|_| (0..self.n()).map(|i| self.sigma[i] * rng.gauss()).collect()).collect()
+    }
+    /// Predicted relative standard deviation of every fitted nonlinear parameter, from the
+    /// generating parameters, the known noise level and the weights alone (first-order theory of
+    /// the weighted estimator at the truth): Cov(alpha_hat) = G^-1 (sum_s J_s^T W^2 Sigma J_s) G^-1
+    /// with J_s = (I - P_A) W D c*_s the projected Jacobian of column s and G = sum_s J_s^T J_s.
+    /// None if the instance is noiseless or singular at the truth. This is the oracle's measure of
+    /// "identifiable at this noise level": nothing the code under test reports enters it.
+    pub fn predicted_alpha_rel_sd(&self) -> Option<Vec<f64>> {
+        use crate::oracle::linalg::{inv_gram_from_svd, svd, Mat};
+        if self.sigma.is_empty() {
+            return None;
+        }
+        let (n, m, p) = (self.n(), self.spec.m(), self.spec.p);
+        let w: Vec<f64> = self.w.clone().unwrap_or_else(|| vec![1.0; n]);
+        let mut phi = Mat::zeros(n, m);
+        for j in 0..m {
+            let col = self.spec.eval_col::<f64>(j, &self.x, &self.alpha_true);
+            phi.col_mut(j).copy_from_slice(&col);
+        }
+        let a = phi.row_scale(&w);
+        let sa = svd(&a);
+        if !(sa.smin() > 1e-12 * sa.smax()) {
+            return None;
+        }
+        // stacked projected Jacobian (S*N x P) and the same with rows scaled by w_i sigma_i
+        let mut j_all = Mat::zeros(n * self.s(), p);
+        let mut j_noise = Mat::zeros(n * self.s(), p);
+        for (s, c) in self.c_true.iter().enumerate() {
+            for k in 0..p {
+                let mut v = vec![0.0; n];
+                for j in 0..m {
+                    let d = self.spec.deriv_col::<f64>(j, k, &self.x, &self.alpha_true);
+                    for i in 0..n {
+                        v[i] += w[i] * d[i] * c[j];
+                    }
+                }
+                let vm = Mat::col_vec(&v);
+                let jk = vm.sub(&sa.project_range(&vm, m));
+                for i in 0..n {
+                    j_all.set(i + s * n, k, jk.d[i]);
+                    j_noise.set(i + s * n, k, jk.d[i] * w[i] * self.sigma[i]);
+                }
+            }
+        }
+        let sj = svd(&j_all);
+        if !(sj.smin() > 1e-14 * sj.smax()) {
+            return None;
+        }
+        let ginv = inv_gram_from_svd(&sj);
+        let mid = j_noise.t().mul(&j_noise);
+        let cov = ginv.mul(&mid).mul(&ginv);
+        Some((0..p).map(|k| cov.at(k, k).max(0.0).sqrt() / self.alpha_true[k].abs()).collect())
     }
     pub fn observations(&self) -> Vec<Vec<f64>> {
         let (c, e) = (self.clean(), self.noise());
